@@ -1,5 +1,244 @@
-import Zc.Model.Name
-import Zc.Model.Txt
-/-! # C19 — service names are validated per RFC 6763 and TXT properties round-trip (placeholder; theorems follow) -/
+import Zc.Proofs.Name
+import Zc.Proofs.Txt
+/-! # C19 — service names are validated per RFC 6763 and TXT properties round-trip
+
+*Names.*  `Name.serviceTypeName` is the statement-by-statement model of
+`_utils/name.py: service_type_name` (its numeric tests and its four regular expressions are
+read from the working tree by the translator on every run); `Name.Spec.Accepts strict s t`
+is the documented grammar, written independently as "`s` is a concatenation of one of the
+documented forms and `t` is its service type" (`Zc/Model/NameSpec.lean`).  The theorems
+hold for **every** string (list of Unicode scalar values) and both modes.
+
+*TXT.*  `Txt.encode` / `Txt.decodeLib` model `ServiceInfo._set_properties` /
+`_unpack_text_into_properties`; `Txt.Spec.parse` is an independent RFC 6763 §6 reader.
+The round-trip theorems hold for **every** dictionary that satisfies RFC 6763 §6.4
+(`WFProps`); outside it the exact behaviour is characterised by the error-branch lemmas. -/
 namespace Zc
+open Zc.Name Zc.Name.Spec
+
+/-! ## Names -/
+
+private theorem valid_inv {strict : Bool} {s t : Str} (h : Valid strict s t) :
+    (∃ svc tr, tr ∈ protoTrailers ∧ SvcLabel strict svc ∧ s = svc ++ tr ∧ t = svc ++ tr)
+    ∨ (∃ p svc tr, tr ∈ protoTrailers ∧ SvcLabel strict svc ∧ p ≠ [] ∧ PrefixOk p ∧ s = (p ++ '.' :: svc) ++ tr ∧ t = svc ++ tr)
+    ∨ (strict = false ∧ ∃ p, (∀ tr ∈ protoTrailers, ¬ tr <:+ s) ∧ PrefixOk p ∧ s = p ++ localTrailer ∧ t = localType) := by
+  cases h with
+  | service a b => exact Or.inl ⟨_, _, a, b, rfl, rfl⟩
+  | prefixed a b c d => exact Or.inr (Or.inl ⟨_, _, _, a, b, c, d, by simp, rfl⟩)
+  | bareLocal a b c => exact Or.inr (Or.inr ⟨a, _, b, c, rfl, rfl⟩)
+
+private theorem split_trailer {a b tr tr' : Str} (h1 : tr ∈ protoTrailers) (h2 : tr' ∈ protoTrailers) (h : a ++ tr = b ++ tr') :
+    a = b ∧ tr = tr' :=
+  List.append_inj' h (by rw [proto_length h1, proto_length h2])
+
+/-- **The validator accepts exactly the documented forms and returns the service type.**
+For every string `s`, both modes and every `t`: `service_type_name(s, strict=strict)` returns `t`
+if and only if `s` is at most 256 characters long and is `<service>._tcp|_udp.local.`,
+`<Instance>.<service>.…` or `<sub>._sub.<service>.…` (non-strict: also a bare `….local.`) under the
+documented rules, with `t` its service type. -/
+theorem C19_validate_spec (s : Str) (strict : Bool) (t : Str) :
+    serviceTypeName s strict = .ok t ↔ Accepts strict s t := by
+  by_cases hlen : s.length ≤ 256
+  case neg =>
+    rw [serviceTypeName_long s strict (by omega)]
+    constructor
+    · intro h; cases h
+    · rintro ⟨h, _⟩; exact absurd h hlen
+  by_cases hp : ∃ tr ∈ protoTrailers, tr <:+ s
+  · obtain ⟨tr, htr, body, hs⟩ := hp
+    rw [serviceTypeName_proto s body tr strict hlen htr hs.symm]
+    rcases exists_last_dot body with hd | ⟨q, l, hb, hl⟩
+    · rw [withService_no_dot strict body tr hd]
+      constructor
+      · intro h
+        split at h
+        · rename_i hsvc; injection h with h; subst h
+          exact ⟨hlen, by rw [← hs]; exact Valid.service htr hsvc⟩
+        · cases h
+      · rintro ⟨_, hv⟩
+        rcases valid_inv hv with ⟨svc, tr', h1, h2, h3, h4⟩ | ⟨p, svc, tr', h1, h2, _, _, h3, _⟩ | ⟨_, p, h1, _⟩
+        · obtain ⟨rfl, rfl⟩ := split_trailer htr h1 (hs.trans h3)
+          rw [if_pos h2, h4]
+        · obtain ⟨rfl, _⟩ := split_trailer htr h1 (hs.trans h3)
+          exact absurd (by simp) hd
+        · exact absurd ⟨body, hs⟩ (h1 tr htr)
+    · subst hb
+      rw [withService_dot strict q l tr hl]
+      constructor
+      · intro h
+        split at h
+        · rename_i hc; injection h with h; subst h
+          refine ⟨hlen, ?_⟩
+          have := Valid.prefixed htr hc.2.1 hc.1 hc.2.2
+          rw [← hs]; simpa using this
+        · cases h
+      · rintro ⟨_, hv⟩
+        rcases valid_inv hv with ⟨svc, tr', h1, h2, h3, h4⟩ | ⟨p, svc, tr', h1, h2, h5, h6, h3, h4⟩ | ⟨_, p, h1, _⟩
+        · obtain ⟨rfl, rfl⟩ := split_trailer htr h1 (hs.trans h3)
+          exact absurd (by simp) (svcLabel_no_dot h2)
+        · obtain ⟨hb, rfl⟩ := split_trailer htr h1 (hs.trans h3)
+          obtain ⟨rfl, rfl⟩ := last_dot_unique hl (svcLabel_no_dot h2) hb
+          rw [if_pos ⟨h5, h2, h6⟩, h4]
+        · exact absurd ⟨q ++ '.' :: l, hs⟩ (h1 tr htr)
+  · have noProto : ∀ {t}, Valid strict s t → strict = false ∧ ∃ p, PrefixOk p ∧ s = p ++ localTrailer ∧ t = localType := by
+      intro t hv
+      rcases valid_inv hv with ⟨svc, tr', h1, _, h3, _⟩ | ⟨p, svc, tr', h1, _, _, _, h3, _⟩ | ⟨h0, p, _, h2, h3, h4⟩
+      · exact absurd ⟨tr', h1, svc, h3.symm⟩ hp
+      · exact absurd ⟨tr', h1, _, h3.symm⟩ hp
+      · exact ⟨h0, p, h2, h3, h4⟩
+    cases strict with
+    | true =>
+      rw [serviceTypeName_strict_noproto s hlen hp]
+      constructor
+      · intro h; cases h
+      · rintro ⟨_, hv⟩; have := (noProto hv).1; cases this
+    | false =>
+      by_cases hl : localTrailer <:+ s
+      · obtain ⟨p, rfl⟩ := hl
+        rw [serviceTypeName_bare p hlen hp, finish_splitDot]
+        constructor
+        · intro h
+          split at h
+          · rename_i hc; injection h with h; subst h
+            exact ⟨hlen, Valid.bareLocal rfl (fun tr htr hsuf => hp ⟨tr, htr, hsuf⟩) hc⟩
+          · cases h
+        · rintro ⟨_, hv⟩
+          obtain ⟨_, p', h2, h3, h4⟩ := noProto hv
+          have := List.append_cancel_right h3
+          subst this
+          rw [if_pos h2, h4]
+      · rw [serviceTypeName_nolocal s hlen hp hl]
+        constructor
+        · intro h; cases h
+        · rintro ⟨_, hv⟩
+          obtain ⟨_, p', _, h3, _⟩ := noProto hv
+          exact absurd ⟨p', h3.symm⟩ hl
+
+/-- **Everything else is rejected with `BadTypeInNameException` and no other error** (in particular
+never `IndexError`: the model's indexing `s[0]`, `s[-1]`, `pop()` are partial operations) -/
+theorem C19_only_badtype (s : Str) (strict : Bool) (e : PyExc) (h : serviceTypeName s strict = .error e) :
+    e = .badType := by
+  have fin : ∀ {c : Prop} {_ : Decidable c} {t : Str}, (if c then Except.ok t else Except.error PyExc.badType) = Except.error e → e = .badType := by
+    intro c _ t h; split at h
+    · cases h
+    · injection h with h; exact h.symm
+  by_cases hlen : s.length ≤ 256
+  case neg => rw [serviceTypeName_long s strict (by omega)] at h; injection h with h; exact h.symm
+  by_cases hp : ∃ tr ∈ protoTrailers, tr <:+ s
+  · obtain ⟨tr, htr, body, hs⟩ := hp
+    rw [serviceTypeName_proto s body tr strict hlen htr hs.symm] at h
+    rcases exists_last_dot body with hd | ⟨q, l, hb, hl⟩
+    · rw [withService_no_dot strict body tr hd] at h; exact fin h
+    · subst hb; rw [withService_dot strict q l tr hl] at h; exact fin h
+  · cases strict with
+    | true => rw [serviceTypeName_strict_noproto s hlen hp] at h; injection h with h; exact h.symm
+    | false =>
+      by_cases hl : localTrailer <:+ s
+      · obtain ⟨p, rfl⟩ := hl
+        rw [serviceTypeName_bare p hlen hp, finish_splitDot] at h; exact fin h
+      · rw [serviceTypeName_nolocal s hlen hp hl] at h; injection h with h; exact h.symm
+
+/-- acceptance and rejection are the only outcomes: a name is of a documented form, or the call raises
+`BadTypeInNameException` -/
+theorem C19_accept_or_badtype (s : Str) (strict : Bool) :
+    (∃ t, serviceTypeName s strict = .ok t ∧ Accepts strict s t) ∨
+    (serviceTypeName s strict = .error .badType ∧ ∀ t, ¬ Accepts strict s t) := by
+  match h : serviceTypeName s strict with
+  | .ok t => exact Or.inl ⟨t, rfl, (C19_validate_spec s strict t).1 h⟩
+  | .error e =>
+    right
+    refine ⟨by rw [C19_only_badtype s strict e h], fun t ht => ?_⟩
+    rw [(C19_validate_spec s strict t).2 ht] at h; cases h
+
+/-- the service type is determined by the name -/
+theorem C19_type_unique (s : Str) (strict : Bool) (t t' : Str) (h : Accepts strict s t) (h' : Accepts strict s t') : t = t' := by
+  have a := (C19_validate_spec s strict t).2 h
+  have b := (C19_validate_spec s strict t').2 h'
+  rw [a] at b; injection b
+
+/-- the returned service type is the tail of the name: `<service>.<proto>.local.`, or `local.` for the bare form -/
+theorem C19_type_is_suffix (s : Str) (strict : Bool) (t : Str) (h : Accepts strict s t) : t <:+ s := by
+  rcases valid_inv h.2 with ⟨svc, tr, _, _, h3, h4⟩ | ⟨p, svc, tr, _, _, _, _, h3, h4⟩ | ⟨_, p, _, _, h3, h4⟩
+  · rw [h3, h4]; exact List.suffix_refl _
+  · rw [h3, h4]; exact ⟨p ++ ['.'], by simp⟩
+  · rw [h3, h4]; exact ⟨p ++ ['.'], by simp [localTrailer, localType]⟩
+
+/-- strict mode only removes names: whatever strict mode accepts, non-strict mode accepts with the same type -/
+theorem C19_strict_implies_nonstrict (s t : Str) (h : Accepts true s t) : Accepts false s t := by
+  have svc : ∀ {l}, SvcLabel true l → SvcLabel false l := by
+    rintro l ⟨b, rfl, hb⟩
+    refine ⟨b, rfl, hb.nonempty, fun c hc => ?_, hb.noLeadingHyphen, hb.noTrailingHyphen, hb.noDoubleHyphen, hb.hasLetter, fun h => by cases h⟩
+    rcases hb.chars c hc with h | h | h | ⟨h, _⟩
+    · exact Or.inl h
+    · exact Or.inr (Or.inl h)
+    · exact Or.inr (Or.inr (Or.inl h))
+    · cases h
+  refine ⟨h.1, ?_⟩
+  rcases valid_inv h.2 with ⟨svc', tr, h1, h2, h3, h4⟩ | ⟨p, svc', tr, h1, h2, h5, h6, h3, h4⟩ | ⟨h0, _⟩
+  · rw [h3, h4]; exact Valid.service h1 (svc h2)
+  · rw [h3, h4]; simpa using Valid.prefixed h1 (svc h2) h5 h6
+  · cases h0
+
+/-- the `ServiceInfo` constructor (info.py:183-184) accepts `(type_, name)` exactly when `name` is a valid
+non-strict name whose service type is the tail of `type_`; otherwise `BadTypeInNameException`, nothing else -/
+theorem C19_constructor (type_ name : Str) :
+    (ctorCheck type_ name = .ok () ↔ ∃ t, Accepts false name t ∧ t <:+ type_)
+    ∧ (∀ e, ctorCheck type_ name = .error e → e = .badType) := by
+  cases h : serviceTypeName name false with
+  | ok t =>
+    have ht := (C19_validate_spec name false t).1 h
+    have hc : ctorCheck type_ name = if t <:+ type_ then .ok () else .error .badType := by simp only [ctorCheck, h]
+    rw [hc]
+    constructor
+    · constructor
+      · intro h2; split at h2
+        · rename_i hs; exact ⟨t, ht, hs⟩
+        · cases h2
+      · rintro ⟨t', ht', hs⟩
+        rw [C19_type_unique name false t' t ht' ht] at hs
+        rw [if_pos hs]
+    · intro e h2; split at h2
+      · cases h2
+      · injection h2 with h2; exact h2.symm
+  | error e =>
+    have hc : ctorCheck type_ name = .error e := by simp only [ctorCheck, h]
+    rw [hc]
+    constructor
+    · constructor
+      · intro h2; cases h2
+      · rintro ⟨t', ht', _⟩
+        rw [(C19_validate_spec name false t').2 ht'] at h; cases h
+    · intro e' h2; injection h2 with h2; rw [← h2]; exact C19_only_badtype name false e h
+
+/-! ### the two repaired defects, on the model (which follows the working tree) -/
+
+/-- D9: a service label that is only an underscore is *rejected with `BadTypeInNameException`*
+(the unrepaired tree raised `IndexError` here) -/
+example : serviceTypeName "_._tcp.local.".toList true = .error .badType := by rfl
+example : serviceTypeName "x._._udp.local.".toList false = .error .badType := by rfl
+
+/-- D10: a newline after the service label is rejected (the unrepaired `…+$` accepted it) -/
+example : serviceTypeName "_ab\n._tcp.local.".toList true = .error .badType := by rfl
+example : ∀ t, ¬ Accepts false "_ab\n._tcp.local.".toList t := fun t h => by
+  have := (C19_validate_spec _ _ _).2 h
+  exact absurd this (by rw [show serviceTypeName "_ab\n._tcp.local.".toList false = .error .badType from rfl]; intro h; cases h)
+
+/-- the mechanism of D10: Python's `$` matches before a final newline, `\Z` does not -/
+theorem C19_dollar_matches_before_newline :
+    reSearch ⟨true, [(97, 122)], true, .dollar⟩ ['a', 'b', '\n'] = true
+    ∧ reSearch ⟨true, [(97, 122)], true, .absZ⟩ ['a', 'b', '\n'] = false := by decide
+
+/-! ### non-vacuity: every documented form is inhabited, in both modes -/
+
+example : Accepts true "_http._tcp.local.".toList "_http._tcp.local.".toList := (C19_validate_spec _ _ _).1 rfl
+example : Accepts true "My Printer.Büro._ipp._tcp.local.".toList "_ipp._tcp.local.".toList := (C19_validate_spec _ _ _).1 rfl
+example : Accepts true "_printer._sub._http._udp.local.".toList "_http._udp.local.".toList := (C19_validate_spec _ _ _).1 rfl
+example : Accepts false "_my_long_service_name_x._tcp.local.".toList "_my_long_service_name_x._tcp.local.".toList :=
+  (C19_validate_spec _ _ _).1 rfl
+example : ∀ t, ¬ Accepts true "_my_long_service_name_x._tcp.local.".toList t := fun t h => by
+  have := (C19_validate_spec _ _ _).2 h
+  exact absurd this (by rw [show serviceTypeName "_my_long_service_name_x._tcp.local.".toList true = .error .badType from rfl]; intro h; cases h)
+example : Accepts false "host.local.".toList "local.".toList := (C19_validate_spec _ _ _).1 rfl
+example : Accepts false ".local.".toList "local.".toList := (C19_validate_spec _ _ _).1 rfl
+
 end Zc
